@@ -4,6 +4,8 @@ import (
 	"bytes"
 	"context"
 	"sync"
+
+	"github.com/ThreeDotsLabs/watermill/internal/verifhook"
 )
 
 var closedchan = make(chan struct{})
@@ -104,6 +106,7 @@ func (m *Message) Ack() bool {
 	}
 
 	m.ackSentType = ack
+	verifhook.Point("message.ack.decided")
 	if m.ack == nil {
 		m.ack = closedchan
 	} else {
@@ -130,6 +133,7 @@ func (m *Message) Nack() bool {
 	}
 
 	m.ackSentType = nack
+	verifhook.Point("message.nack.decided")
 
 	if m.noAck == nil {
 		m.noAck = closedchan
